@@ -197,14 +197,18 @@ type Frag struct {
 }
 
 type Case struct {
-	Handshake string `json:"handshake"` // simple | complexish | badversion | short | garbage | none
-	Stage     string `json:"stage"`     // raw | connected | publishing | playing
-	Stream    string `json:"stream"`
-	Msgs      []Msg  `json:"msgs"`
-	Flips     []int  `json:"flips,omitempty"` // byte offsets (mod len) to corrupt
-	Trunc     int    `json:"trunc"`           // -1: whole stream; else keep this many bytes (mod len+1)
-	Slices    []int  `json:"slices"`          // sizes of the leading segments
-	Frag      *Frag  `json:"frag,omitempty"`
+	Handshake string `json:"handshake"` // simple | complexish | digest | digest1 | badversion | short | garbage | none
+	// digest / digest1 (digest_test.go): C1 signed for scheme 0 / 1
+	HsKey  string `json:"hs_key,omitempty"`  // "": the client key; "full" | "server": a key no server accepts
+	HsOffs string `json:"hs_offs,omitempty"` // 8 hex digits: the 4 digest offset bytes (sums up to 1020, far beyond the 728 positions)
+	C2     string `json:"c2,omitempty"`      // "" | valid | garbage | short | missing
+	Stage  string `json:"stage"`             // raw | connected | publishing | playing
+	Stream string `json:"stream"`
+	Msgs   []Msg  `json:"msgs"`
+	Flips  []int  `json:"flips,omitempty"` // byte offsets (mod len) to corrupt
+	Trunc  int    `json:"trunc"`           // -1: whole stream; else keep this many bytes (mod len+1)
+	Slices []int  `json:"slices"`          // sizes of the leading segments
+	Frag   *Frag  `json:"frag,omitempty"`
 	// By: healthy sessions attached to Stream before the hostile bytes: "" (none), "sub", "sub+pub"
 	By string `json:"by,omitempty"`
 }
@@ -613,7 +617,16 @@ func genFrag(t *rapid.T) *Frag {
 
 func genCase(t *rapid.T) Case {
 	var c Case
-	c.Handshake = rapid.SampledFrom([]string{"simple", "simple", "simple", "simple", "complexish", "badversion", "short", "garbage", "none"}).Draw(t, "handshake")
+	kinds := []string{"simple", "simple", "simple", "digest", "digest1", "digest", "complexish", "badversion", "short", "garbage", "none"}
+	if disabled("digest") {
+		kinds = []string{"simple", "simple", "simple", "simple", "complexish", "badversion", "short", "garbage", "none"}
+	}
+	c.Handshake = rapid.SampledFrom(kinds).Draw(t, "handshake")
+	if isDigestKind(c.Handshake) {
+		c.HsOffs = rapid.SampledFrom([]string{"", "", "ffffffff", "ffffffd8", "00000000", "d8ffff02", "ff00ff00", "000002d8", "000002d7", "ffffff00"}).Draw(t, "hsOffs")
+		c.HsKey = rapid.SampledFrom([]string{"", "", "", "", "", "full", "server"}).Draw(t, "hsKey")
+		c.C2 = rapid.SampledFrom([]string{"", "valid", "valid", "valid", "garbage", "short", "missing"}).Draw(t, "c2")
+	}
 	c.Stage = rapid.SampledFrom([]string{"raw", "connected", "publishing", "publishing", "playing"}).Draw(t, "stage")
 	c.Stream = rapid.SampledFrom(streamNames).Draw(t, "stream")
 	scenario := rapid.IntRange(0, 9).Draw(t, "scenario")
@@ -912,7 +925,11 @@ func (r *renderer) ilv(g *Ilv) {
 
 func renderWire(c Case) wire {
 	r := &renderer{w: rtmpref.NewChunkWriter(128), lalCS: 128, used: map[int]bool{}}
-	r.b = handshakeBytes(c.Handshake)
+	if isDigestKind(c.Handshake) {
+		r.b = digestHandshakeBytes(c)
+	} else {
+		r.b = handshakeBytes(c.Handshake)
+	}
 	r.hsEnd = len(r.b)
 	if c.Stage != "raw" {
 		r.plain(cmdMsg("connect", 1, 3, 0, rtmpref.Obj(rtmpref.M("app", rtmpref.Str("live")), rtmpref.M("tcUrl", rtmpref.Str("rtmp://127.0.0.1/live")))))
@@ -1036,6 +1053,23 @@ func wellFormedPlayOrPublish(m Msg) bool {
 func classify(c Case) (bool, []string) {
 	labels := []string{"handshake:" + c.Handshake, "stage:" + c.Stage}
 	reached := c.Handshake == "simple" || c.Handshake == "complexish"
+	if isDigestKind(c.Handshake) {
+		// passable whatever lal makes of the digest (it falls back to the simple handshake), as long as C2 is complete
+		reached = c.C2 == "" || c.C2 == "valid" || c.C2 == "garbage"
+		if c.HsKey == "" {
+			labels = append(labels, "digest:accepted-key")
+		} else {
+			labels = append(labels, "digest:refused-key")
+		}
+		if o, err := hex.DecodeString(c.HsOffs); err == nil && len(o) == 4 && int(o[0])+int(o[1])+int(o[2])+int(o[3]) >= digestRange {
+			labels = append(labels, "digest:offset-bytes-sum>=728")
+		}
+		c2 := c.C2
+		if c2 == "" {
+			c2 = "valid"
+		}
+		labels = append(labels, "digest:c2-"+c2)
+	}
 	mutated := len(c.Flips) > 0 || c.Trunc >= 0
 	var one func(m Msg, inIlv bool)
 	afterTeardownCmd := false
